@@ -201,6 +201,9 @@ pub struct MacroDefinition {
 /// How deep macro invocations may be nested
 const MAX_MACRO_DEPTH: usize = 64;
 
+/// How deep blocks (and macro invocations) may be nested in total
+const MAX_NESTING_DEPTH: usize = 128;
+
 pub struct CodegenContext {
     tree: Arc<ParseTree>,
     options: CodegenOptions,
@@ -225,6 +228,7 @@ pub struct CodegenContext {
     next_macro_scope_id: usize,
     macro_depth: usize,
     macro_depth_exceeded: bool,
+    nesting_depth: usize,
 
     test_elements: Vec<TestElement>,
 
@@ -278,6 +282,7 @@ impl CodegenContext {
             next_macro_scope_id: 0,
             macro_depth: 0,
             macro_depth_exceeded: false,
+            nesting_depth: 0,
             test_elements: vec![],
             source_map: SourceMap::default(),
             import_stack: vec![],
@@ -371,6 +376,7 @@ impl CodegenContext {
         self.next_macro_scope_id = 0;
         self.macro_depth = 0;
         self.macro_depth_exceeded = false;
+        self.nesting_depth = 0;
 
         log::trace!("\n* NEXT PASS ({}) *", self.pass_idx);
         self.segments.values_mut().for_each(|s| s.reset());
@@ -558,6 +564,24 @@ impl CodegenContext {
     }
 
     fn emit_tokens(&mut self, tokens: &[Token]) -> CoreResult<()> {
+        // Every block, and every macro invocation, nests a level deeper. That has to end somewhere, and preferably
+        // before we run out of stack.
+        if self.nesting_depth >= MAX_NESTING_DEPTH {
+            self.macro_depth_exceeded = true;
+            return Err(Diagnostic::error()
+                .with_message(format!(
+                    "blocks and macro invocations are nested more than {} levels deep",
+                    MAX_NESTING_DEPTH
+                ))
+                .into());
+        }
+        self.nesting_depth += 1;
+        let result = self.emit_tokens_inner(tokens);
+        self.nesting_depth -= 1;
+        result
+    }
+
+    fn emit_tokens_inner(&mut self, tokens: &[Token]) -> CoreResult<()> {
         let mut errors = Diagnostics::default();
         for token in tokens {
             if self.macro_depth_exceeded {
